@@ -49,7 +49,15 @@ fn nest(ops: &[AbsOp], pos: &mut usize, m: &AbsModule) -> Option<(Vec<Json>, Str
                 }
                 json!({"o": if name.starts_with("I32Load") { "Load" } else { "Store" }, "m": o.refs.first()?.1, "off": off, "w": if name.ends_with('8') || name.ends_with("8U") { 1 } else { 4 }})
             }
-            "MemorySize" => json!({"o": name, "m": o.refs.first()?.1}),
+            "MemorySize" | "MemoryGrow" | "MemoryFill" => json!({"o": name, "m": o.refs.first()?.1}),
+            // (destination, source): two memories / two tables, or a segment and its destination
+            "MemoryCopy" => json!({"o": name, "m": o.refs.first()?.1, "s": o.refs.get(1)?.1}),
+            "MemoryInit" => json!({"o": name, "seg": o.refs.iter().find(|r| r.0 == "data")?.1, "m": o.refs.iter().find(|r| r.0 == "memory")?.1}),
+            "DataDrop" => json!({"o": name, "seg": o.refs.first()?.1}),
+            "TableSize" => json!({"o": name, "t": o.refs.first()?.1}),
+            "TableCopy" => json!({"o": name, "t": o.refs.first()?.1, "s": o.refs.get(1)?.1}),
+            "TableInit" => json!({"o": name, "seg": o.refs.iter().find(|r| r.0 == "elem")?.1, "t": o.refs.iter().find(|r| r.0 == "table")?.1}),
+            "ElemDrop" => json!({"o": name, "seg": o.refs.first()?.1}),
             "Br" | "BrIf" => json!({"o": name, "d": o.labels.first()?}),
             "BrTable" => {
                 let (d, ds) = o.labels.split_last()?;
@@ -119,7 +127,8 @@ pub fn project(bytes: &[u8], tags: &dyn Fn(u32) -> String, gtag: &dyn Fn(u32) ->
         if mm.ty.contains("m64=true") {
             return None;
         }
-        mems.push(json!({"pages": kv(&mm.ty, "min")?}));
+        // growth is capped at 64 pages in the model (the same cap in both runs)
+        mems.push(json!({"pages": kv(&mm.ty, "min")?, "max": kv(&mm.ty, "max").unwrap_or(65536).min(64)}));
     }
     let mut tables = vec![];
     for t in &m.tables {
